@@ -36,6 +36,16 @@ SUM = {
  "C15-2": ("C15", "on a failed SUBACK hand-over the context removes the stream registration keyed by the SUBACK's PACKET identifier", "a cancelled subscribe whose packet identifier equals the subscription identifier of a later, live subscription (identifiers out of step): that sibling stream ends"),
  "C16-2": ("C16", "TxPacketStream::write yields after every 8th short write by returning Pending without waking itself", "a writer accepting k bytes per call and a packet longer than 8k bytes under an executor that polls only woken tasks"),
  "C17-2": ("C17", "session_expired compares the elapsed time with the interval taken as milliseconds", "finite expiry E and E/1000 s < time since disconnection <= E s: a live session is reset, nothing re-sent"),
+ "C05-3": ("C05", "linear_search_by_key scans VecDeque::as_slices() and returns second-slice hits without the offset (same mechanism as C06-1, found independently)", "ring buffer wrapped by earlier oldest-first acknowledgements, then a younger outstanding operation acknowledged before an older one"),
+ "C06-3": ("C06", "the Ok reply of a fire-and-forget request (QoS 0 PUBLISH) is sent before tx.write()", "a writer under back-pressure (Pending / partial write / error) while the context handles a QoS 0 PUBLISH, and the publish future polled in that window"),
+ "C07-3": ("C07", "subscribe() closes the stream receiver when ANY SUBACK reason code is >= 0x80", "a multi-filter SUBSCRIBE answered with a mixed SUBACK (granted + refused): all later messages of that subscription are dropped and the stream ends"),
+ "C10-3": ("C10", "when the quota reads 0 it is recomputed as R minus the retransmission queue length", "a live QoS 2 publish whose PUBREC the context processed but whose future has not been polled since (no queue entry in that window), quota exhausted, another QoS>0 publish served in that window"),
+ "C13-3": ("C13", "the select loop drains all queued requests in one go and keeps the exit decision of the LAST one", "a request already queued behind the user's DISCONNECT when the context serves it: it is written after the DISCONNECT and run() does not return"),
+ "C14-3": ("C14", "SubscribeStream::poll_next returns Pending without waking itself after 32 consecutive items", "a stream with >= 32 buffered messages drained by a consumer that polls only after wake-ups: the rest and the end of the stream never arrive after the context is dropped"),
+ "C15-3": ("C15", "a request whose response channel is already cancelled is dropped unwritten when taken off the queue", "the PUBREL of a QoS 2 publish dropped with its PUBREC delivered but unseen (guard path) or dropped right after queueing the PUBREL: never written, slot lost"),
+ "C16-3": ("C16", "SubscribeStream::poll_next returns Pending after consuming a PUBLISH whose Payload Format Indicator is 1 but whose payload is not UTF-8", "such a message followed by another one for the same stream, consumer polled only when woken"),
+ "C17-3": ("C17", "acknowledgement handling refactored into a helper that returns early when no awaiting_ack entry exists, before removing the retransmission copy", "QoS 2 publish dropped before PUBREC, context-sent PUBREL answered with PUBCOMP, connection lost, session resumed: the PUBREL is replayed"),
+ "C03-3": ("C03", "(see agent-notes.md)", "(see agent-notes.md)"),
 }
 for d in sorted(glob.glob('/verif/seeded/*/')):
     name = os.path.basename(d.rstrip('/'))
